@@ -21,7 +21,7 @@
 EXTENDS Naturals, Integers, Sequences, FiniteSets, TLC, FiniteSetsExt
 
 CInit(res) == [live |-> <<>>, held |-> [r \in res |-> 0], keys |-> {}, started |-> {},
-               ended |-> {}, failed |-> {}, failedJobs |-> {}, nsub |-> 0,
+               ended |-> {}, failed |-> {}, failedJobs |-> {}, ferr |-> <<>>, nsub |-> 0,
                lastUsed |-> [r \in res |-> 0], over |-> FALSE]
 
 Lim(hdr, r) == hdr.limits[r]
@@ -49,7 +49,8 @@ DoFinish(C, hdr, e) ==
   [C EXCEPT !.live = [j \in DOMAIN @ \ {e.job} |-> @[j]],
             !.held = [r \in ResOf(hdr) |-> @[r] - C.live[e.job][r]],
             !.failed = IF e.ok = 0 THEN @ \cup {<<e.etype, e.msg>>} ELSE @,
-            !.failedJobs = IF e.ok = 0 THEN @ \cup {e.job} ELSE @]
+            !.failedJobs = IF e.ok = 0 THEN @ \cup {e.job} ELSE @,
+            !.ferr = IF e.ok = 0 THEN (e.job :> <<e.etype, e.msg>>) @@ @ ELSE @]
 
 \* limits_used as reported by the implementation after each step of the loop
 StateWhy(C, hdr, e, on) ==
@@ -77,8 +78,12 @@ EndWhy(C, hdr, e, on) ==
   \* (errors raised by the scheduler itself -- unknown executor -- come from no task function)
   ELSE IF "errors" \in on /\ e.outcome = "error" /\ e.etype # "SchedulerError" /\ <<e.etype, e.msg>> \notin C.failed
        THEN "errors:raised-error-not-produced-by-an-execution-in-this-run"
-  ELSE IF "errors" \in on /\ e.outcome = "error" /\ hdr.mode = "real"
-          /\ \E j \in C.failedJobs : j \notin C.ended THEN "errors:failing-job-not-recorded"
+  \* the job whose error run() raised is recorded (other jobs may have failed at their executor without the scheduler
+  \* having processed the report before the workflow stopped: those are not "the failing job" of the statement)
+  ELSE IF "errors" \in on /\ e.outcome = "error" /\ hdr.mode = "real" /\ e.etype # "SchedulerError"
+          /\ <<e.etype, e.msg>> \in C.failed
+          /\ ~\E j \in C.failedJobs : C.ferr[j] = <<e.etype, e.msg>> /\ j \in C.ended
+       THEN "errors:failing-job-not-recorded"
   ELSE IF "errors" \in on /\ e.outcome = "value" /\ hdr.expect.res = "err" THEN "errors:error-swallowed"
   \* a dry run may also fail where the real run would fail before executing anything (unknown executor)
   ELSE IF "dry" \in on /\ hdr.mode = "dry" /\ e.outcome \notin {"value", "dry", "error"} THEN "dry:unexpected-outcome"
